@@ -193,6 +193,8 @@ impl<'a> GenericDataEncoder<'a> {
             if self.data.starts_with(head) {
                 self.codewords.push(cw);
                 self.data = &self.data[head.len()..self.data.len() - MACRO_TRAIL.len()];
+                // backup() computes offsets relative to `input`
+                self.input = self.data;
                 break;
             }
         }
